@@ -238,7 +238,7 @@ def obligations(ctx):
 MAXP = 30000
 
 
-def change_step(ctx):
+def change_step(ctx, record=("c05", "c06"), rounds=None):
     """ONE call of add_change_if_needed_with_optional_script_and_datum from an arbitrary builder state:
          Ok(_)  =>  total_input == total_output(before) + outputs added by the call + fee stored by the call
        for lovelace and for an arbitrary native asset.  Together with the accounting obligations above
@@ -253,7 +253,7 @@ def change_step(ctx):
     P = ctx.P
     TB = P.struct_fields["TransactionBuilder"]
     thorough = ctx.tier == "thorough"
-    ROUNDS = 2 if thorough else 1
+    ROUNDS = rounds or (2 if thorough else 1)
     NODATUM = not thorough
     E = Engine(P, max_loop=ROUNDS, opaque=[r"::to_json$"])
     def may_fail(E_, tag):
@@ -354,6 +354,7 @@ def change_step(ctx):
         outs = VM.deref(E_, tb.fields[TB.index("outputs")])
         VM.deref(E_, outs.fields[0]).items.append(clone(VM.deref(E_, args[1])))
         E_.trace.append(("add",))
+        E_.trace.append(("admitted", len(VM.deref(E_, outs.fields[0]).items) - 1, VM.value_parts(E_, VM.deref(E_, args[1]).fields[P.struct_fields["TransactionOutput"].index("amount")])))
         return VEnum("Result", "Ok", [UNIT])
     E.extra_intrinsics[r"TransactionBuilder::add_output$"] = add_output
     ppc, dnb = z3.Bool("prefer_pure_change"), z3.Bool("do_not_burn_extra_change")
@@ -379,6 +380,8 @@ def change_step(ctx):
     ob3 = Obligation(ctx, "c06_e2_change_step_fee_covers_final_sizes", "as c05_e2_change_step_balances, fee request Unspecified; linear fee a * size + b with a: 0..2^20, b arbitrary; every coin width; "
                      "size of an output = (part independent of the coin) + CBOR head of the coin", ["TransactionBuilder::add_change_if_needed_with_optional_script_and_datum", "burn_extra", "TransactionBuilder::set_final_fee"],
                      fallback_native="e2n_c06_change_fee_widths")
+    ob4 = Obligation(ctx, "c07_e2_change_outputs_pass_admission", "as c05_e2_change_step_balances: every output the balancing step creates", ["TransactionBuilder::add_change_if_needed_with_optional_script_and_datum"],
+                     fallback_native="e2n_c07_change_min_ada")
     seen, panics = {}, {}
     for o in E.explore("TransactionBuilder::add_change_if_needed_with_optional_script_and_datum", mk, max_paths=MAXP):
         if o.kind == "bound":
@@ -406,6 +409,23 @@ def change_step(ctx):
             if ma_ is not None:
                 q_sum = q_sum + ma_[0]
         flag = VM.deref(E, o.value.fields[0])
+        # C07: every output the step created went through add_output (the admission check: minimum ADA of the real output,
+        # max_value_size), holds the assets it was admitted with, and its coin was only raised afterwards
+        adm = {t[1]: t[2] for t in o.trace if t[0] == "admitted"}
+        for j, a in enumerate(added):
+            if j == 0:
+                continue
+            a = VM.deref(E, a)
+            c_, ma_ = VM.value_parts(E, a.fields[P.struct_fields["TransactionOutput"].index("amount")])
+            if j not in adm:
+                ob4.violation("Ok with %d change outputs: output #%d was put into the transaction without the admission check of add_output (minimum ADA of the real output, max_value_size)" % (len(added) - 1, j))
+                continue
+            c0, ma0 = adm[j]
+            ob4.vc("change output #%d: the coin it finally holds is at least the coin it was admitted with" % j, o.pc, c_ >= c0)
+            if (ma_ is None) != (ma0 is None):
+                ob4.violation("change output #%d: asset bundle changed after admission" % j)
+            elif ma_ is not None:
+                ob4.vc("change output #%d: the arbitrary asset's quantity is the admitted one" % j, o.pc, ma_[0] == ma0[0])
         added = added[1:]
         key = (len(added), str(z3.simplify(flag.t)) if isinstance(flag, VBool) else "?")
         seen[key] = seen.get(key, 0) + 1
@@ -436,9 +456,13 @@ def change_step(ctx):
     ctx.log("  [E2] change step: Ok outcomes by (outputs added, flag): %s; panicking paths (outside C05): %s" % (seen, panics))
     if not any(k[0] == 0 for k in seen) or not any(k[0] == 1 for k in seen) or not any(k[0] >= 2 for k in seen):
         ob.fail("expected Ok outcomes with 0, 1 and >= 2 added outputs, saw %s" % sorted(seen))
-    ob.finish(E)
-    ob2.finish(Engine(P))
-    ob3.finish(Engine(P))
+    if "c05" in record:
+        ob.finish(E)
+    if "c06" in record:
+        ob2.finish(Engine(P))
+        ob3.finish(Engine(P))
+    if "c07" in record:
+        ob4.finish(E if "c05" not in record else Engine(P))
 
 
 def fee_alignment_contracts(ctx):
